@@ -51,6 +51,15 @@ def gen_case(rng):
         else:
             sp["values"] = (vv % 2 == 0) if nt == 'bool' else (vv % 120).astype(nt)
         c["narrow"] = nt
+    if what == 'diff' and "narrow" not in c and rng.random() < 0.2:
+        # 64-bit integers beyond 2**53 (differences are exact in int64, not after a detour through float64), complex data
+        if rng.random() < 0.6:
+            sp["values"] = (np.nan_to_num(np.asarray(sp["values"], dtype=float)) % 1000).astype(np.int64) + 2 ** 53 + 1
+            c["narrow"] = 'int64>2**53'
+        else:
+            vv = np.nan_to_num(np.asarray(sp["values"], dtype=float))
+            sp["values"] = vv + 1j * (vv % 7)
+            c["narrow"] = 'complex128'
     if what == 'diff':
         c["n"] = rng.choice([1, 1, 2, 3])
         c["scheme"] = rng.choice(['backward', 'forward', 'centered'])
@@ -134,7 +143,7 @@ def check(case, ctx):
             exp = model.MA(e, m.dims, labs)
         else:
             ctx.outcomes['diff-keepaxis'] += 1
-            ee = np.full(v.shape, np.nan)
+            ee = np.full(v.shape, np.nan, dtype=complex if v.dtype.kind == 'c' else float)
             sl = [slice(None)] * nd
             if e.shape[k] > 0:
                 sl[k] = slice(n, None) if scheme == 'backward' else slice(0, size - n)
